@@ -188,6 +188,9 @@ def stepL1 (st : DState) (toks : List String) : Option (DState × String) :=
   | "sch.read" :: _ :: rest =>
     -- C13: a request that fixes its epoch once reads the tree of that epoch or fails (snapshot_read)
     if rest.isEmpty then none else some (st, "violations=0")
+  | "sch.flush" :: _ :: rest =>
+    -- C13/C16: a cache flush concurrent with requests (`Flush.answers_published`)
+    if rest.isEmpty then none else some (st, "violations=0")
   | "sch.poll" :: _ :: rest =>
     -- C13, last clause: the theorem `Poll.answers_after_signal` (a request that starts after a signal is
     -- answered from an epoch at least as new)
